@@ -349,7 +349,7 @@ def unit_solve(fam, name, scratch=False):
     st = stored(mjm)
     trees = [(int(a), int(n)) for a, n in zip(mjm.tree_dofadr, mjm.tree_dofnum) if n > 0]
     for h, r in runs.items():
-      ch = la.Chain(r["hr"].assumes, facts)
+      ch = la.Chain(r["hr"].assumes, r["hr"].defs, facts)
       r["chain"] = ch
 
       def lemma(qname, got, want, what, desc):
@@ -382,10 +382,11 @@ def unit_solve(fam, name, scratch=False):
       ctx.prove(sessM, f"{h}/M-untouched", And(unchanged(r["dM"]), unchanged(r["M"])), replay=rp(f"{h}.M"), desc=f"{name} ({h}): the factorisation modifies its input matrix")
     # both entry points agree (the step1 ; step2 lemma of C37): compare after replacing the proved factor entries in both runs
     a, c = runs["split"], runs["fused"]
-    both = la.Chain(a["hr"].assumes + c["hr"].assumes, facts)
-    both.subs = a["chain"].subs + c["chain"].subs
+    both = la.Chain(a["hr"].assumes + c["hr"].assumes, a["hr"].defs + c["hr"].defs, facts)
+    for t, cl in a["chain"].subs + c["chain"].subs:
+      both.add(t, cl)
     # the two entry points store the same sequence of values into every x cell (forward substitution, then backward): replace
-    # the fused run's intermediate values by the split run's, one small lemma per store
+    # the fused run's intermediate value by the split run's name, one small lemma per store
     wa, wc = a["hr"].writes(a["x"]), c["hr"].writes(c["x"])
     seq = {}
     for idx, v in wc:
@@ -399,7 +400,9 @@ def unit_solve(fam, name, scratch=False):
         if is_sym(va) and is_sym(vc) and not va.eq(vc):
           res = both.prove(ctx, f"same/lemma:x-store{list(idx)}#{k}", cmp("==", vc, va), replay=rp(f"same.store{idx[0]}_{idx[1]}_{k}"), desc=f"{name}: store #{k} into x{list(idx)} differs between factor_m;solve_m and factor_solve_i (replay compares the outputs)")
           if res.status == "unsat":
+            # from now on both are ONE opaque number: later lemmas do not need how it was computed
             both.add(vc, va)
+            both.opaque.add(va.decl().name())
     for w in range(nworld):
       for i in range(nv):
         both.prove(ctx, f"same/w{w}/x[{i}]", cmp("==", flat(a["x"], w, i), flat(c["x"], w, i)), replay=rp(f"same.x{i}"), desc=f"{name}: factor_m;solve_m and factor_solve_i return different x[{i}]")
